@@ -194,6 +194,10 @@ def prefix_is_code(t, T):
         cons.append(Not(t.in_set(last, A.XID_CONTINUE)))
         cons.append(Not(t.is_code(last, ord(":"))))
         cons.append(Not(t.is_code(last, ord("!"))))
+    # the prefix does not open a macro invocation of its own (`outer!(k = info!(..))` nests the statement in
+    # another macro's argument list, which the scan treats as that macro's key-values): no `!` in the prefix
+    for i in range(start, start + length):
+        cons.append(Not(t.is_code(i, ord("!"))))
     return cons
 
 
@@ -784,4 +788,38 @@ def c14_directives(src, quick=True, timeout=300):
             return t, cons, Not(e1.considered), "directive after the statement", {
                 "kind": "entries_exact", "structured": False, "macros": INFO, "positions": [T.marks["s1msg"]]}
         case("c14-after-statement-%s" % sname, build_after)
+    return out
+
+
+def c10_multi_config(src, structured=False, timeout=300):
+    """several configured macros, two of them sharing a name under different modules: every one of
+    them, bare and qualified, is found; the same names under a module that is not configured are not"""
+    out = []
+    macros = (("log", "info"), ("tracing", "info"), ("tracing::sub", "warn"), ("slog", "error"))
+    good_names = ["info", "log::info", "tracing::info", "warn", "tracing::sub::warn", "error", "slog::error"]
+    bad_names = ["slog::info", "tracing::warn", "sub::warn", "log::error", "tracing::sub::info"]
+    for idx, (name, should) in enumerate([(n, True) for n in good_names] + [(n, False) for n in bad_names]):
+        if not mine(idx):
+            continue
+        T = tmpl.Template("c10m%d" % idx)
+        T.hole("pre", 2, tmpl.NO_QUOTE_SLASH).lit(name, mark="name").lit('!("').hole("msg", 3, MSG_CHARS, mark="msg").lit('")').tail("rest", 2)
+        t, cons = T.build()
+        cons += tmpl.string_body_ok(t, T.marks["msg"], 3) + prefix_is_code(t, T) + no_directive(t)
+        fm = model.FileModel(src, t)
+        p0 = T.marks["name"]
+        e = model.SymEntry(fm, p0, macros, structured, None) if p0 in fm.found else None
+        if should:
+            goal = Not(e.considered) if e is not None else z3.BoolVal(True)
+            exp = {"kind": "entry_at", "pos": T.marks["msg"] if not structured else T.marks["name"] + len(name) + 2,
+                   "structured": structured, "macros": macros}
+        else:
+            hit = False
+            for p in fm.found:
+                if p0 <= p < T.marks["msg"]:
+                    hit = Or(hit, model.SymEntry(fm, p, macros, structured, None).considered)
+            goal = hit if hit is not False else z3.BoolVal(False)
+            exp = {"kind": "no_entries", "structured": structured, "macros": macros}
+        out.append(run_query("c10-multi-config-%s-%s" % ("found" if should else "ignored", name.replace("::", "_")), t, cons, goal,
+                             "config with 4 macros (two named info); statement %s!(\"<3 chars>\")" % name, timeout,
+                             extra={"expect": exp}))
     return out
